@@ -437,7 +437,7 @@ func checkCommand(run *vk.Run, a *Authority, st *nodeState, c CmdSpec, at time.T
 			case c.Kind == "rotate" && c.Serial != 0:
 				shape = "rotate-serial-override"
 			}
-			if st.rebootOverRotated && c.Kind == "rotate" {
+			if st.rebootOverRotated && shape == "rotate" {
 				// (a re-bootstrap over a rotated authority left the rotated key's name and manifest entry behind:
 				// the listed re-bootstrap findings; with --keep_going the stale entry then survives the rotation)
 				shape += ":after-rebootstrap"
